@@ -456,6 +456,33 @@ func (c *Ctx) ruleC11Close() {
 	} else {
 		r.Undecided("C11-CLOSE", "unclosed at EOF", "processEOF not found", "")
 	}
+	// a directive opens at most one explicit context
+	if g := c.fn("core", "JApiCore.processContextBegin"); g != nil {
+		var guard *ast.IfStmt
+		var set *ast.AssignStmt
+		ast.Inspect(g.Decl.Body, func(n ast.Node) bool {
+			switch x := n.(type) {
+			case *ast.IfStmt:
+				if fld := fieldSel(g.Pkg, x.Cond); fld != nil && fld.Name() == "HasExplicitContext" && returnsNonNilError(g.Pkg, x.Body.List) {
+					guard = x
+				}
+			case *ast.AssignStmt:
+				if len(x.Lhs) == 1 {
+					if fld := fieldSel(g.Pkg, x.Lhs[0]); fld != nil && fld.Name() == "HasExplicitContext" {
+						set = x
+					}
+				}
+			}
+			return true
+		})
+		if guard != nil && set != nil && buildCFG(g.Decl.Body).dominatedBy(set, guard.Cond) {
+			r.Ok("C11-CLOSE", "single open", "a second '(' for the same directive returns an error before the flag is set", c.pos(g.Decl.Pos()))
+		} else {
+			r.Bad("C11-CLOSE", "single open", "a directive accepts several opening parentheses but opens one context: '((' ... ')' is accepted", c.pos(g.Decl.Pos()))
+		}
+	} else {
+		r.Undecided("C11-CLOSE", "single open", "processContextBegin not found", "")
+	}
 	// HasUnclosedExplicitContext walks the parent chain
 	if g := c.fn("core", "JApiCore.HasUnclosedExplicitContext"); g != nil {
 		sawFlag, sawParent := false, false
